@@ -3,3 +3,6 @@ import PosterModel.Props
 import PosterModel.Tx
 import PosterModel.Rx
 import PosterModel.Framing
+import PosterModel.Ctx
+import PosterModel.World
+import PosterModel.Script
